@@ -136,6 +136,13 @@ class SymFactory:
     def complex(self, name):
         return SymComplex(self.real(name + ".re"), self.real(name + ".im"))
 
+    def bitword(self, name, width):
+        """(word, bits): an unsigned `width`-bit word given bit by bit (LSB first), so that
+        masks, shifts and ors with constants stay Boolean instead of div/mod arithmetic."""
+        from .sym import _from_bits
+        bits = [self.bool("%s.%d" % (name, i)) for i in range(width)]
+        return _from_bits([b.t for b in bits]), bits
+
     def pin(self, v):
         """A CONCRETE int as a proxy (z3 numeral): divisions by it stay exact rationals instead
         of being rounded by CPython float arithmetic before a proxy is met; range(), ==,
@@ -170,6 +177,10 @@ class ConcreteFactory:
 
     def bool(self, name):
         return bool(self.values.get(name, False))
+
+    def bitword(self, name, width):
+        bits = [self.bool("%s.%d" % (name, i)) for i in range(width)]
+        return sum((1 << i) for i, b in enumerate(bits) if b), bits
 
     def pin(self, v):
         return int(v)
@@ -576,6 +587,8 @@ def _verify_rest(c, variant, thunk, stats, obs, ob, info, deadline, t_start):
             v = sp.value
             if isinstance(v, SymBool):
                 goal = v.t
+            elif isinstance(v, SymNum):
+                goal = v.t != 0
             else:
                 goal = z3.BoolVal(bool(v))
             if negate:
